@@ -41,6 +41,9 @@ type hcall struct {
 	escaped  any
 	events   []event
 	wantErr  error // set when exactly one step fails, with this error, and no panic is involved
+	// mustCommit: every step returned nil, nothing panicked and the plan refuses neither begin
+	// nor commit: "committed if and only if every supplied step returned nil"
+	mustCommit bool
 }
 
 func (c *hcall) judge() (fs []finding) {
@@ -65,6 +68,9 @@ func (c *hcall) judge() (fs []finding) {
 	}
 	if c.wantErr != nil && (c.res == nil || !(errors.Is(c.res, c.wantErr) || mentions(c.res, c.wantErr.Error()))) {
 		add("wrong-error", "%s: the only failing step returned %q but the result is %v", c.name, c.wantErr, c.res)
+	}
+	if c.mustCommit && !commitOK {
+		add("rollback-despite-success", "%s: every supplied step returned nil and nothing was refused, but the server accepted no commit during the call (result %v)", c.name, c.res)
 	}
 	if !beginOK && c.ran > 0 {
 		add("step-without-begin", "%s: the server accepted no begin during the call but %d step(s) ran", c.name, c.ran)
@@ -144,7 +150,7 @@ func handlesCase(k *engine.Case) {
 			return fns
 		}
 		var calls []*hcall
-		scenario := []string{"nested", "nested", "begun-handle", "ctx-cancel", "ctx-cancel", "ctx-dead", "self-rollback", "self-commit", "ctx-cancel-fail", "ctx-cancel-fail"}[r.Intn(10)]
+		scenario := []string{"nested", "nested", "begun-handle", "ctx-cancel", "ctx-cancel", "ctx-dead", "self-rollback", "self-commit", "ctx-cancel-fail", "ctx-cancel-fail", "dry-run", "step-adds-error"}[r.Intn(12)]
 		desc := scenario
 		switch scenario {
 		case "nested":
@@ -241,6 +247,36 @@ func handlesCase(k *engine.Case) {
 			calls = append(calls, c)
 			cancel()
 			desc = fmt.Sprintf("ctx-cancel-fail (step waits for the server-side rollback=%v)", wait)
+		case "dry-run":
+			// a dry-run session (statements are built, not sent): Transact still brackets the steps
+			// with a transaction of its own
+			steps := someSteps(1)
+			fails := r.Intn(3) == 0
+			if fails {
+				steps = append(steps, errStep())
+			}
+			c := observe(srv, "Transact(db.Session(&gorm.Session{DryRun: true}), ...)", len(steps), &ran, func() error {
+				return gormx.Transact(e.db.Session(&gorm.Session{DryRun: true}), steps...)
+			})
+			c.mustCommit = !fails && !pl.beginFail && !pl.commitFail
+			calls = append(calls, c)
+			desc = fmt.Sprintf("dry-run (a step fails=%v)", fails)
+		case "step-adds-error":
+			// a step records an error on the handle it was given (AddError) and still returns nil:
+			// it returned nil, so it counts as a success
+			steps := someSteps(0)
+			steps = append(steps, func(txn *gorm.DB) error {
+				ran++
+				_ = txn.AddError(fmt.Errorf("c18-handles-recorded-not-returned"))
+				return nil
+			})
+			// (it is the last step: gorm calls made on the handle afterwards would report the recorded
+			// error, and a later step passing that on does fail)
+			c := observe(srv, "Transact(db, ..., last step calls txn.AddError(e) and returns nil)", len(steps), &ran, func() error {
+				return gormx.Transact(e.db, steps...)
+			})
+			c.mustCommit = !pl.beginFail && !pl.commitFail
+			calls = append(calls, c)
 		case "ctx-dead":
 			ctx, cancel := context.WithCancel(context.Background())
 			cancel()
